@@ -616,8 +616,10 @@ impl FdlActiveStation {
         let pending_bytes = phy.poll_pending_received_bytes(now);
         if pending_bytes > self.pending_bytes {
             self.mark_bus_activity(now);
-            self.pending_bytes = pending_bytes;
         }
+        // Always track the current amount so that a receive buffer which was emptied because
+        // its content was undecodable does not hide the bytes of the next telegram.
+        self.pending_bytes = pending_bytes;
     }
 
     /// Mark receival of a telegram.
